@@ -87,6 +87,13 @@ def obligations(tier, rng):
                     continue            # 1-2 min each; thorough tier only
                 out.append(ob('C04', 'op', '%s/%s/n=[2, 2]%s' % (start, text(f), '/same-start' if same else ''), f=f, ns=[2, 2],
                               start=start, same_start=same, max_paths=60000, wall=1500))
+    for k in BINT:
+        for a, b in [(1, 2)]:
+            f = (k, X, Y, a, b)
+            out.append(ob('C04', 'op', 'zero/%s/n=[1, 3]%s' % (text(f), '/same-start' if k == 'since_t' else ''), f=f, ns=[1, 3], start='zero',
+                          same_start=(k == 'since_t'), max_paths=60000, wall=1500))
+            out.append(ob('C04', 'op', 'zero/%s/n=[3, 1]%s' % (text(f), '/same-start' if k == 'since_t' else ''), f=f, ns=[3, 1], start='zero',
+                          same_start=(k == 'since_t'), max_paths=60000, wall=1500))
     res_ = out
     from .. import core as _core
     res_ = res_ + _core.make_twins(res_, [('zero/once[0,1](x)/n=2', 'ctwindow'), ('zero/always[1,2](x)/n=2', 'ctminmax'), ('zero/(x) and (y)/n=[2, 2]', 'ctminmax'), ('free/eventually[0,1](x)/n=2', 'ctwindow')]) + _core.make_forkmode(res_, ['zero/(x) and (y)/n=[2, 2]', 'zero/once(x)/n=2'])
